@@ -75,7 +75,7 @@ func xPrint(ns []*xNode) string {
 	return sb.String()
 }
 
-var xLits = []string{"0", "1", "2", "3", "-1", "7", "10", "0.5", "2.5", "GET", "x", "abc", "", "a b", "200", "404"}
+var xLits = []string{"0", "1", "2", "3", "-1", "7", "10", "0.5", "2.5", "GET", "x", "abc", "", "a b", "200", "404", "x y z", "p q"}
 var xKeys = []string{"src", "line", "verb", "code", "path", "@"}
 // @for: a random continuation expression is almost always constant-true and costs a million iterations per line;
 // the range family draws @for with bounded conditions instead
@@ -350,7 +350,15 @@ func init() {
 					if t.WBool(1, 4) {
 						file.WriteString("\n   \n")
 					}
-					if sp := strings.LastIndex(text, " "); sp > len(name) && t.WBool(1, 2) {
+					sp := strings.LastIndex(text, " ")
+					if q := strings.Index(text, `"`); q >= 0 && t.WBool(1, 2) {
+						// prefer a space inside a quoted argument: the string then spans the continuation
+						rest := text[q+1:]
+						if in, end := strings.Index(rest, " "), strings.Index(rest, `"`); in >= 0 && end > in {
+							sp = q + 1 + in
+						}
+					}
+					if sp > len(name) && t.WBool(1, 2) {
 						// backslash continuation: the space stays in front of the backslash
 						file.WriteString(text[:sp+1] + "\\\n      " + text[sp+1:])
 					} else {
